@@ -75,6 +75,26 @@ def run(tier, rep, replay=None):
     rc = json.load(open(os.path.join(w, "refcheck.json")))
     if not rc["ok"] and not any(True for bad, _ in res if bad):
         raise C.Infra("plain Go reference disagrees with circl although TLC accepts circl's outputs: %s" % rc["notes"])
+    # 4c. RFC 9380 expanders: TLC recomputes a sample (ExpanderJobs.tla) and judges every recorded call
+    ejobs = json.load(open(os.path.join(w, "expanderjobs.json")))
+    if ejobs:
+        fals = copy.deepcopy(ejobs[0]); fals["want"][0] ^= 1
+        ebad, est = tlc_jobs(w, "ej", "ExpanderJobs", "jobs.json", ejobs + [fals])
+        if [j for j in ebad if j is not ebad[-1]] or not ebad or ebad[-1]["want"] != fals["want"]:
+            for j in ebad:
+                if j["want"] != fals["want"]:
+                    rep.violation("expander:%s:dst=%d:msg=%d:n=%d" % (j["kind"], len(j["dst"]), len(j["msg"]), j["n"]), {"job": {k: (v if not isinstance(v, list) else bytes(v).hex()) for k, v in j.items()},
+                                                                                                                "explain": "output differs from RFC 9380 section 5.3 recomputed by TLC (ExpanderJobs.tla)"})
+            if not any(j["want"] == fals["want"] for j in ebad):
+                raise C.Infra("ExpanderJobs accepted a falsified output")
+    elines = C.read_ndjson(os.path.join(w, "expander.ndjson"))
+    xbad, xr = C.validate_lines(w, "Trace_Expander", "Lines.cfg", elines)
+    for i in xbad:
+        e = elines[i]
+        what = "beyond-limit-returns-output" if not e["admitted"] else ("panic" if e["panics"] else "wrong-output")
+        rep.violation("expander:%s:%s:n=%d" % (e["kind"], what, e["n"] if not e["admitted"] else 0), {"observed": {k: (v if k not in ("out", "ref") else v[:64]) for k, v in e.items()},
+                                                                         "explain": "RFC 9380 expander call not explained by Trace_Expander.tla"})
+    rep.add(expander_calls=len(elines), expander_tlc_recomputed=len(ejobs), expander_kinds=sorted({e["kind"] for e in elines}))
     # 4b. Ascon behaviour lines (round trip, in place, append, single-bit alterations)
     alines = C.read_ndjson(os.path.join(w, "ascon.ndjson"))
     abad, ar = C.validate_lines(w, "Trace_Ascon", "Lines.cfg", alines)
@@ -113,7 +133,7 @@ def run(tier, rep, replay=None):
 
 
 MANIFEST = {
- "text": "SpongeImpl.tla (implementation shape of sha3.go over a symbolic permutation) is model-checked against the FIPS 202 definition for every split of the input into writes and the output into reads with Clone/Reset interleaved; XofMachine.tla is the API-level machine. KeccakOps/HashJobs/K12Jobs are executable FIPS 202 / KangarooTwelve definitions: TLC recomputes circl's SHA3-*, SHAKE*, TurboSHAKE*, K12 outputs and the x2/x4 permutation lanes on a boundary-length spot sample byte for byte. TLC-simulated call schedules at real block/chunk boundaries are replayed on sha3.State, xof.XOF (SHAKE, BLAKE2X, K12), k12.State with lanes forced to 1/2/4, and every read must be Stream(absorbed)[squeezed..) of the one-shot reference (trace validation, canary).",
- "note": "Reference streams at volume come from a plain Go Keccak/K12 that is certified against the TLA+ definition on the spot sample of the same run; message content is a fixed pseudo-random string (prefixes), lengths and chunkings vary. Ascon and the RFC 9380 expanders: see the ascon / expander parts of this check.",
+ "text": "ExpanderJobs.tla is RFC 9380 section 5.3 (expand_message_xmd over SHA-256 / SHA-384 / SHA-512, expand_message_xof over SHAKE128 / SHAKE256, over-long DST hashing) as an executable job machine with which TLC recomputes a sample of the library's expander outputs; every recorded expander call (DST lengths 0..300, message lengths 0..200, output lengths 1..1000, the maxima, and requests beyond the RFC's limits, which must abort) is judged by TLC against a transcription. SpongeImpl.tla (implementation shape of sha3.go over a symbolic permutation) is model-checked against the FIPS 202 definition for every split of the input into writes and the output into reads with Clone/Reset interleaved; XofMachine.tla is the API-level machine. KeccakOps/HashJobs/K12Jobs are executable FIPS 202 / KangarooTwelve definitions: TLC recomputes circl's SHA3-*, SHAKE*, TurboSHAKE*, K12 outputs and the x2/x4 permutation lanes on a boundary-length spot sample byte for byte. TLC-simulated call schedules at real block/chunk boundaries are replayed on sha3.State, xof.XOF (SHAKE, BLAKE2X, K12), k12.State with lanes forced to 1/2/4, and every read must be Stream(absorbed)[squeezed..) of the one-shot reference (trace validation, canary).",
+ "note": "Reference streams at volume come from a plain Go Keccak/K12 that is certified against the TLA+ definition on the spot sample of the same run; message content is a fixed pseudo-random string (prefixes), lengths and chunkings vary. Ascon: 3 modes x boundary lengths recomputed by TLC; RFC 9380 expanders: a sample of about 40 outputs recomputed by TLC per run, the rest against a transcription.",
  "technique": "TLC exhaustive chunking check of implementation-shaped sponge model + executable Keccak/K12 TLA+ evaluated by TLC as oracle + TLC-simulated schedules replayed + TLC trace validation",
 }
